@@ -149,7 +149,7 @@ def insert_noise(doc, rng, kinds):
                     if k.tail is None or not k.tail.strip(): k.tail = '\n  '
                 log.append(f'whitespace inside {etree.QName(host).localname}')
     out = etree.tostring(root).decode()
-    if 'decl' in kinds: out = '<?xml version="1.0" encoding="UTF-8" standalone="no"?>\n' + out; log.append('XML declaration')
+    if 'decl' in kinds: out = '<?xml version="1.0" encoding="UTF-8" standalone="no"?>' + rng.choice(['\n', '', ' ']) + out; log.append('XML declaration')     # also with nothing between it and the root (one-line files)
     if 'pi_top' in kinds: out = out.replace('<svg', '<?top pi?><!-- before root --><svg', 1) + '<!-- after root -->'; log.append('PI/comment outside the root')
     return out, log
 
